@@ -499,5 +499,5 @@ class Anchors:
                 "   Do not edit: rewritten on every check run. *)\n"
                 "From Coq Require Import ZArith QArith Qround Bool List.\n"
                 "From Acryo Require Import Common.PyNum.\n"
-                "Local Open Scope Z_scope.\n\n")
+                "Import ListNotations.\nLocal Open Scope Z_scope.\n\n")
         return head + "\n".join(self.items)
